@@ -1015,7 +1015,8 @@ class InBodyPhase(Phase):
         else:
             if self.tree.openElements[1].parent:
                 self.tree.openElements[1].parent.removeChild(self.tree.openElements[1])
-            while self.tree.openElements[-1].name != "html":
+            while (self.tree.openElements[-1].namespace != self.tree.defaultNamespace or
+                   self.tree.openElements[-1].name != "html"):
                 self.tree.openElements.pop()
             self.tree.insertElement(token)
             self.parser.phase = self.parser.phases["inFrameset"]
